@@ -43,9 +43,13 @@ RESTART_GAP_NS = 1_000_000
 
 def gen_epochs(rng: random.Random, tier: str) -> dict:
     kind = rng.choice(["size_tiered", "leveled"])
-    policy = rng.choice(["every", "batch", "batch", "periodic"])
+    # pile-up mode (a third of the cases): tiny memtables, a sync policy that leaves an unsynced tail, put_sync from
+    # inside the simulation and bursts in every epoch, so that several memtables are in flight at once, one flush
+    # call installs more than one SSTable, and crashes at quiescence find operations that were flushed but never synced
+    pile_up = rng.random() < 0.34
+    policy = rng.choice(["batch", "batch", "periodic"]) if pile_up else rng.choice(["every", "batch", "batch", "periodic"])
     cfg = gen_lsm_cfg(rng, kind, wal=True, wal_policy=policy)
-    cfg["memtable_size"] = rng.choice([1, 2, 3, 3, 4, 10])
+    cfg["memtable_size"] = rng.choice([1, 1, 2]) if pile_up else rng.choice([1, 2, 3, 3, 4, 10])
     if kind == "size_tiered":
         cfg["strategy"]["min_sstables"] = rng.choice([2, 3, 4, 6, 50])
     else:
@@ -53,7 +57,9 @@ def gen_epochs(rng: random.Random, tier: str) -> dict:
     keys = gen_keys(rng, 2, 6)
     scale = cfg["sstable_write_latency"]
     mix = dict(MIX)
-    if rng.random() < 0.67:
+    if pile_up:
+        mix.update(put_sync=0.16, put=0.4)
+    elif rng.random() < 0.67:
         mix["put"] += mix.pop("put_sync")  # put_sync from inside the simulation only in a third of the cases
     epochs = []
     for e in range(rng.choice([2, 3, 3, 4])):
@@ -68,7 +74,7 @@ def gen_epochs(rng: random.Random, tier: str) -> dict:
             clients.append(
                 {"start": gen_think(rng, 2 * scale), "ops": gen_client_ops(rng, keys, max(1, total // n_clients), scale, mix, scans=False)}
             )
-        if rng.random() < 0.4:
+        if pile_up or rng.random() < 0.4:
             clients += gen_burst_clients(rng, keys, scale, mix, scans=False, max_clients=6)
         if e > 0 and rng.random() < 0.6:
             # a client that re-issues the tail of a previous-epoch program (retry of operations the crash may have lost)
@@ -83,7 +89,7 @@ def gen_epochs(rng: random.Random, tier: str) -> dict:
         sch = []
         for ep in epochs:
             n_ops = sum(len(c["ops"]) for c in ep["clients"])
-            sch.append("end" if rng.random() < 0.3 else rng.randrange(0, 5 * n_ops + 3))
+            sch.append("end" if rng.random() < (0.6 if pile_up else 0.3) else rng.randrange(0, 5 * n_ops + 3))
         schedules.append(sch)
     return {"store": cfg, "keys": keys, "epochs": epochs, "schedules": schedules}
 
@@ -193,6 +199,8 @@ def _run_schedule(case: dict, schedule: list, res: Result) -> None:
         for cl, spec in zip(clients, ep["clients"]):
             sim.schedule(Event(time=Instant(base_ns + int(round(spec["start"] * 1e9))), event_type="go", target=cl))
         sampler = Sampler(store, cfg)
+        sampler.hist = hist
+        sampler._hist_seen = len(hist.recs)
         sampler.now_ns = base_ns
         sim.control.on_event(sampler.on_event)
         k = schedule[e]
@@ -211,6 +219,7 @@ def _run_schedule(case: dict, schedule: list, res: Result) -> None:
             res.count("schedules_abandoned")
             return
         res.count("events_monitored", sampler.events)
+        res.count("flush_calls_installing_two_or_more_sstables", sampler.multi_install_events)
         crash_ns = max(sampler.now_ns, base_ns)
 
         # ---- judge the epoch's ordinary reads, then fix durability of its writes at the crash
@@ -241,9 +250,12 @@ def _run_schedule(case: dict, schedule: list, res: Result) -> None:
         gc.collect()  # closes the abandoned generators (their finally blocks run now, not at a random later time)
 
         # ---- crash, recover, sweep
-        store.crash()
+        writes_open = any(r["op"] in ("put", "delete") and r["t1"] is None for r in hist.recs)
+        state0 = {key: store.get_sync(key) for key in case["keys"]}
+        lost = store.crash()
         store.recover_from_crash()
         crashes += 1
+        nothing_volatile = not writes_open and lost["memtable_entries_lost"] == 0 and lost["immutable_memtable_entries_lost"] == 0
         res.count("crash_points_checked")
         now_ns = crash_ns + RESTART_GAP_NS
         state1 = {}
@@ -255,6 +267,18 @@ def _run_schedule(case: dict, schedule: list, res: Result) -> None:
             clause, adm, sup = judge(read, writes.get(key, []))
             if clause:
                 report(read, key, clause, adm, sup, sweep=True)
+            if nothing_volatile:
+                res.count("keys_checked_at_crashes_with_nothing_volatile")
+                if got != state0[key]:
+                    res.add(
+                        "crash-with-nothing-volatile-changes-state",
+                        "LSMTree",
+                        f"no-write-in-flight-memtables-empty-policy-{cfg['wal']['policy']['kind']}",
+                        f"epoch {e}: no write was in flight and crash() reported 0 memtable / immutable-memtable entries lost, i.e. "
+                        f"everything visible was in installed SSTables; get_sync({key!r}) was {state0[key]!r} before the crash and is "
+                        f"{got!r} after crash+recovery (log replay resurrected or hid something)",
+                        {"schedule": schedule, "key": key, "before": state0[key], "after": got, "crash_report": lost, "writes_to_key": writes.get(key, [])[-8:]},
+                    )
         store.recover_from_crash()
         for key in case["keys"]:
             if store.get_sync(key) != state1[key]:
